@@ -93,23 +93,30 @@ Definition raws_exc (L : list row2) (R : bind2 -> list row2) : list row2 :=
                           end) L.
 Definition raws_alt (L : list row2) (R : bind2 -> list row2) : list row2 :=
   flat_map (fun x : row2 => if fst (fst x) then R (snd x) else [(false, snd (fst x), snd x)]) L.
-Definition raws (s : sel) (L : list row2) (R : bind2 -> list row2) (B : bind2) : list row2 :=
+Definition raws (s : sel) (L : list row2) (R : bind2 -> list row2) (R2 : list row2) : list row2 :=
   match s with
   | SExc => raws_exc L R
   | SAlt => raws_alt L R
-  | SNext => raws_alt L R ++ filter rtrue (R B)
+  | SNext => raws_alt L R ++ filter rtrue R2
   end.
 
 Section Pes.
-  Variable Bs : list belem.
-  Fixpoint pes2 (t : tree) (B : bind2) : list row2 :=
+  Variables (Cs : list celem) (Bs : list belem).
+  (* the rows of a tree for a source: c bound (Some B), or the whole domain of c (None) *)
+  Fixpoint pes2 (t : tree) (b : option bind2) : list row2 :=
     match t with
     | Leaf _ cs c =>
         if is_join cs
-        then map (fun ia => let B' := {| bc := bc B; bb := Some ia |} in
-                            (negb (Nat.eqb (fst ia) (parent_of B) && holds (elem_of B') (tl cs)), c, B')) (enum Bs)
-        else [(negb (holds (elem_of B) cs), c, B)]
-    | Node _ s l r => map norm (raws s (pes2 l B) (pes2 r) B)
+        then match b with
+             | Some B => map (fun ia => let B' := {| bc := bc B; bb := Some ia |} in
+                                        (negb (Nat.eqb (fst ia) (parent_of B) && holds (elem_of B') (tl cs)), c, B')) (enum Bs)
+             | None => []
+             end
+        else match b with
+             | Some B => [(negb (holds (elem_of B) cs), c, B)]
+             | None => map (fun ic => let B := {| bc := ic; bb := None |} in (negb (holds (elem_of B) cs), c, B)) (enum Cs)
+             end
+    | Node _ s l r => map norm (raws s (pes2 l b) (fun B => pes2 r (Some B)) (pes2 r b))
     end.
 End Pes.
 
@@ -186,47 +193,51 @@ Section Inner.
   Variables (Cs : list celem) (Bs : list belem).
 
   Definition Inner (t : tree) : Prop :=
-    forall B k S, ~ In (rootsel2 S) (ids t) -> Pre t S -> kgood (inT t) k ->
-      SegI (inT t) k (root_id t) (concl_now2 t) (pes2 Bs t B) S (ev2 selof Cs Bs t (Some B) k S) /\
-      Pre t (ev2 selof Cs Bs t (Some B) k S).
+    forall b k S, ~ In (rootsel2 S) (ids t) -> Pre t S -> kgood (inT t) k ->
+      SegI (inT t) k (root_id t) (concl_now2 t) (pes2 Cs Bs t b) S (ev2 selof Cs Bs t b k S) /\
+      Pre t (ev2 selof Cs Bs t b k S).
   Definition Raw (id : nat) (s : sel) (l r : tree) : Prop :=
-    forall B k S, ~ In (rootsel2 S) (ids l) -> ~ In (rootsel2 S) (ids r) ->
+    forall b k S, ~ In (rootsel2 S) (ids l) -> ~ In (rootsel2 S) (ids r) ->
       Pre (Node id s l r) S -> kgood (inT (Node id s l r)) k ->
-      SegR selof (inT (Node id s l r)) k id (raws s (pes2 Bs l B) (pes2 Bs r) B) S (ev2 selof Cs Bs (Node id s l r) (Some B) k S) /\
-      Pre (Node id s l r) (ev2 selof Cs Bs (Node id s l r) (Some B) k S).
+      SegR selof (inT (Node id s l r)) k id (raws s (pes2 Cs Bs l b) (fun B => pes2 Cs Bs r (Some B)) (pes2 Cs Bs r b)) S
+        (ev2 selof Cs Bs (Node id s l r) b k S) /\
+      Pre (Node id s l r) (ev2 selof Cs Bs (Node id s l r) b k S).
 
-  Lemma inner_leaf id cs c : Inner (Leaf id cs c).
+  Lemma leaf_seg id cs c : forall b k S, Pre (Leaf id cs c) S -> kgood (inT (Leaf id cs c)) k ->
+      SegI (inT (Leaf id cs c)) k id (concl_now2 (Leaf id cs c)) (pes2 Cs Bs (Leaf id cs c) b) S
+        (ev2 selof Cs Bs (Leaf id cs c) b k S) /\
+      Pre (Leaf id cs c) (ev2 selof Cs Bs (Leaf id cs c) b k S).
   Proof.
-    intros B k S Hroot Hpre [Hk Hkr]. cbn [ev2 pes2 root_id].
+    intros b k S Hpre [Hk Hkr]. cbn [ev2 pes2 root_id].
     assert (Hin : inT (Leaf id cs c) id) by (red; simpl; auto).
+    (* a fold that yields one row per item *)
+    assert (Hgen : forall (A : Type) (mk : A -> bool * bind2) (L : list A) S0, Pre (Leaf id cs c) S0 ->
+               let step := fun (S : store2) (x : A) => k (snd (mk x)) (fst (mk x)) (setb2 FLAG id (fst (mk x)) S) in
+               SegI (inT (Leaf id cs c)) k id (concl_now2 (Leaf id cs c))
+                 (map (fun x => (fst (mk x), c, snd (mk x))) L) S0 (fold_left step L S0) /\
+               Pre (Leaf id cs c) (fold_left step L S0)).
+    { intros A mk. induction L as [|x L IHL]; intros S0 Hp0 step.
+      - split; [apply sb_refl|exact Hp0].
+      - cbn [map fold_left SegI fst snd].
+        assert (Hp1 : Pre (Leaf id cs c) (step S0 x)).
+        { intros n Hn. destruct Hn as [<-|[]]. unfold step. rewrite !(Hk _ _ _ _ id Hin).
+          rewrite !get2_setb2_diff by (left; unfold FLAG, DYN, REV; lia). apply Hp0. simpl. auto. }
+        destruct (IHL (step S0 x) Hp1) as [I1 I2]. split; [|exact I2].
+        exists (setb2 FLAG id (fst (mk x)) S0). split; [apply sb_setb2; exact Hin|]. split; [apply getb2_setb2_same|].
+        split; [reflexivity|]. exact I1. }
     destruct (is_join cs).
-    - (* one row per body *)
-      assert (Hgen : forall L S0, Pre (Leaf id cs c) S0 ->
-                 let step := fun (S : store2) (ia : nat * belem) =>
-                               k {| bc := bc B; bb := Some ia |}
-                                 (negb (Nat.eqb (fst ia) (parent_of B) && holds (elem_of {| bc := bc B; bb := Some ia |}) (tl cs)))
-                                 (setb2 FLAG id (negb (Nat.eqb (fst ia) (parent_of B) && holds (elem_of {| bc := bc B; bb := Some ia |}) (tl cs))) S) in
-                 SegI (inT (Leaf id cs c)) k id (concl_now2 (Leaf id cs c))
-                   (map (fun ia => let B' := {| bc := bc B; bb := Some ia |} in
-                                   (negb (Nat.eqb (fst ia) (parent_of B) && holds (elem_of B') (tl cs)), c, B')) L)
-                   S0 (fold_left step L S0) /\ Pre (Leaf id cs c) (fold_left step L S0)).
-      { induction L as [|ia L IHL]; intros S0 Hp0 step.
-        - split; [apply sb_refl|exact Hp0].
-        - cbn [map fold_left SegI fst snd].
-          set (f := negb (Nat.eqb (fst ia) (parent_of B) && holds (elem_of {| bc := bc B; bb := Some ia |}) (tl cs))).
-          assert (Hp1 : Pre (Leaf id cs c) (step S0 ia)).
-          { intros n Hn. destruct Hn as [<-|[]]. unfold step. fold f. rewrite !(Hk _ _ _ _ id Hin).
-            rewrite !get2_setb2_diff by (left; unfold FLAG, DYN, REV; lia). apply Hp0. simpl. auto. }
-          destruct (IHL (step S0 ia) Hp1) as [I1 I2]. split; [|exact I2].
-          exists (setb2 FLAG id f S0). split; [apply sb_setb2; exact Hin|]. split; [apply getb2_setb2_same|].
-          split; [reflexivity|]. exact I1. }
-      apply Hgen. exact Hpre.
-    - cbn [SegI fst snd]. split.
-      + exists (setb2 FLAG id (negb (holds (elem_of B) cs)) S). split; [apply sb_setb2; exact Hin|].
-        split; [apply getb2_setb2_same|]. split; [reflexivity|]. apply sb_refl.
-      + intros n Hn. destruct Hn as [<-|[]]. rewrite !(Hk _ _ _ _ id Hin).
-        rewrite !get2_setb2_diff by (left; unfold FLAG, DYN, REV; lia). apply Hpre. simpl. auto.
+    - destruct b as [B|].
+      + exact (Hgen _ (fun ia : nat * belem =>
+                         (negb (Nat.eqb (fst ia) (parent_of B) && holds (elem_of {| bc := bc B; bb := Some ia |}) (tl cs)),
+                          {| bc := bc B; bb := Some ia |})) (enum Bs) S Hpre).
+      + split; [apply sb_refl|exact Hpre].
+    - destruct b as [B|].
+      + exact (Hgen _ (fun B0 : bind2 => (negb (holds (elem_of B0) cs), B0)) [B] S Hpre).
+      + exact (Hgen _ (fun ic : nat * celem => (negb (holds (elem_of {| bc := ic; bb := None |}) cs), {| bc := ic; bb := None |}))
+                      (enum Cs) S Hpre).
   Qed.
+  Lemma inner_leaf id cs c : Inner (Leaf id cs c).
+  Proof. intros b k S _ Hpre Hk. apply leaf_seg; assumption. Qed.
 
   (* an inner selector only proposes: the raw form gives the inner form *)
   Lemma segR_segI (P : nat -> Prop) k id : P id -> kgood P k ->
@@ -249,11 +260,11 @@ Section Inner.
 
   Lemma raw_inner id s l r : Raw id s l r -> Inner (Node id s l r).
   Proof.
-    intros H B k S Hroot Hpre Hk.
+    intros H b k S Hroot Hpre Hk.
     assert (Hrl : ~ In (rootsel2 S) (ids l)) by (intro; apply Hroot; simpl; right; apply in_or_app; auto).
     assert (Hrr : ~ In (rootsel2 S) (ids r)) by (intro; apply Hroot; simpl; right; apply in_or_app; auto).
     assert (Hrid : id <> rootsel2 S) by (intro E; apply Hroot; rewrite <- E; simpl; auto).
-    destruct (H B k S Hrl Hrr Hpre Hk) as [H1 H2]. split; [|exact H2].
+    destruct (H b k S Hrl Hrr Hpre Hk) as [H1 H2]. split; [|exact H2].
     cbn [pes2 root_id]. change (concl_now2 (Node id s l r)) with (fun S => get2 DYN id S).
     apply segR_segI; auto. red. simpl. auto.
   Qed.
@@ -435,7 +446,7 @@ Section ExcNode.
 
   Definition exc_g (x : row2) : list row2 :=
     if fst (fst x) then [((true, @nil nat, snd x) : row2)]
-    else match filter rtrue (pes2 Bs r (snd x)) with
+    else match filter rtrue (pes2 Cs Bs r (Some (snd x))) with
          | [] => [(false, snd (fst x), snd x)]
          | T => T
          end.
@@ -463,7 +474,7 @@ Section ExcNode.
       assert (HrS2 : ~ In (rootsel2 S2) (ids r)) by (rewrite (sb_root _ _ _ HS2), J4; exact Hrsr).
       assert (HpS2 : Pre r S2).
       { intros n Hn. rewrite !(sb_get _ _ _ _ _ HS2) by (intro; subst; contradiction). apply J3. exact Hn. }
-      destruct (Hr Bl excK' S2 HrS2 HpS2 excK'_good) as [Hseg Hpre3].
+      destruct (Hr (Some Bl) excK' S2 HrS2 HpS2 excK'_good) as [Hseg Hpre3].
       set (S3 := ev2 selof Cs Bs r (Some Bl) excK' S2) in *.
       assert (HJr : Jr S1 false S2).
       { unfold S2. split; [rewrite getb2_setb2_diff by (left; unfold RY, FLAG; lia); apply getb2_setb2_same|].
@@ -479,10 +490,10 @@ Section ExcNode.
       { unfold S4. split; [rewrite get2_set2_diff by (left; unfold RY, DYN; lia); exact A2|].
         split; [rewrite get2_set2_diff by (left; unfold RY, REV; lia); exact A3|]. split; [|exact A5].
         intros n Hn. rewrite !get2_set2_diff by (right; intro; subst; contradiction). apply Hpre3. exact Hn. }
-      destruct (existsb rtrue (pes2 Bs r Bl)) eqn:Eex.
+      destruct (existsb rtrue (pes2 Cs Bs r (Some Bl))) eqn:Eex.
       + (* an exception held: nothing more *)
         pose proof (filter_some _ _ Eex) as Hne.
-        destruct (filter rtrue (pes2 Bs r Bl)) as [|y T] eqn:Ef; [congruence|].
+        destruct (filter rtrue (pes2 Cs Bs r (Some Bl))) as [|y T] eqn:Ef; [congruence|].
         split; [|exact HJx4].
         eapply segR_pre; [apply (sb_mono (fun n => n = id)); [intros n ->; exact Hti|exact HS2]|].
         eapply segR_post; [exact HR|exact HS4].
@@ -512,7 +523,7 @@ Section ExcNode.
 
   Lemma exc_rows : forall rowsL S Send, Jx S ->
     SegI (inT l) excKK (root_id l) (concl_now2 l) rowsL S Send ->
-    SegR selof (inT t) k id (raws_exc rowsL (pes2 Bs r)) S Send /\ Jx Send.
+    SegR selof (inT t) k id (raws_exc rowsL (fun B => pes2 Cs Bs r (Some B))) S Send /\ Jx Send.
   Proof.
     assert (Hml : forall n, inT l n -> inT t n) by (intros n Hn; red; simpl; right; apply in_or_app; auto).
     assert (HQl : forall n, inT l n -> n <> id /\ ~ In n (ids r)).
@@ -523,7 +534,7 @@ Section ExcNode.
       pose proof (Jx_sb _ _ _ A HQl HJ) as HJ1.
       destruct (exc_row x S1 HJ1 Bf C) as [R1 R2].
       destruct (IH _ Send R2 D) as [I1 I2]. split; [|exact I2].
-      change (raws_exc (x :: rest) (pes2 Bs r)) with (exc_g x ++ raws_exc rest (pes2 Bs r)).
+      change (raws_exc (x :: rest) (fun B => pes2 Cs Bs r (Some B))) with (exc_g x ++ raws_exc rest (fun B => pes2 Cs Bs r (Some B))).
       eapply segR_pre; [apply (sb_mono _ _ _ _ Hml A)|]. eapply segR_app; eauto.
   Qed.
 End ExcNode.
@@ -531,11 +542,11 @@ End ExcNode.
 Theorem raw_exc selof Cs Bs id l r :
   Inner selof Cs Bs l -> Inner selof Cs Bs r -> NoDup (ids (Node id SExc l r)) -> Raw selof Cs Bs id SExc l r.
 Proof.
-  intros Hl Hr Hnd B k S Hrl Hrr Hpre Hk.
+  intros Hl Hr Hnd b k S Hrl Hrr Hpre Hk.
   destruct (node_facts _ _ _ _ Hnd) as [Hidl [Hidr [Hlr _]]].
   rewrite (ev2_exc_unfold selof Cs Bs id l r k).
   assert (Hpl : Pre l S) by (intros n Hn; apply Hpre; simpl; right; apply in_or_app; auto).
-  destruct (Hl B (excKK selof Cs Bs id l r k) S Hrl Hpl (excKK_good selof Cs Bs id l r Hnd k Hk)) as [Hseg Hpl'].
+  destruct (Hl b (excKK selof Cs Bs id l r k) S Hrl Hpl (excKK_good selof Cs Bs id l r Hnd k Hk)) as [Hseg Hpl'].
   assert (HJ : Jx id r (rootsel2 S) S).
   { split; [apply Hpre; simpl; auto|]. split; [apply Hpre; simpl; auto|]. split; [|reflexivity].
     intros n Hn. apply Hpre. simpl. right. apply in_or_app. auto. }
@@ -747,7 +758,7 @@ Section AltNode.
   Qed.
 
   Definition alt_g (x : row2) : list row2 :=
-    if fst (fst x) then pes2 Bs r (snd x) else [(false, snd (fst x), snd x)].
+    if fst (fst x) then pes2 Cs Bs r (Some (snd x)) else [(false, snd (fst x), snd x)].
 
   Lemma alt_row x S1 : Jy S1 -> getb2 FLAG (root_id l) S1 = fst (fst x) ->
     (fst (fst x) = false -> concl_now2 l S1 = snd (fst x)) ->
@@ -765,7 +776,7 @@ Section AltNode.
       assert (HrS2 : ~ In (rootsel2 S2) (ids r)) by (rewrite (sb_root _ _ _ HS2), J4; exact Hrsr).
       assert (HpS2 : Pre r S2).
       { intros n Hn. rewrite !(sb_get _ _ _ _ _ HS2) by (intro; subst; contradiction). apply J3. exact Hn. }
-      destruct (Hr Bl altKr S2 HrS2 HpS2 altKr_good) as [Hseg Hpre3].
+      destruct (Hr (Some Bl) altKr S2 HrS2 HpS2 altKr_good) as [Hseg Hpre3].
       set (S3 := ev2 selof Cs Bs r (Some Bl) altKr S2) in *.
       assert (HJa : Ja S1 S2).
       { unfold S2. split; [apply getb2_setb2_same|]. split; [rewrite !get2_setb2_diff by (left; unfold LEV, DYN; lia); exact J1|].
@@ -801,7 +812,7 @@ Section AltNode.
 
   Lemma alt_rows : forall rowsL S Send, Jy S ->
     SegI (inT l) altKK (root_id l) (concl_now2 l) rowsL S Send ->
-    SegR selof (inT t) k id (raws_alt rowsL (pes2 Bs r)) S Send /\ Jy Send.
+    SegR selof (inT t) k id (raws_alt rowsL (fun B => pes2 Cs Bs r (Some B))) S Send /\ Jy Send.
   Proof.
     assert (Hml : forall n, inT l n -> inT t n) by (intros n Hn; red; simpl; right; apply in_or_app; auto).
     assert (HQl : forall n, inT l n -> n <> id /\ ~ In n (ids r)).
@@ -812,7 +823,7 @@ Section AltNode.
       pose proof (Jy_sb _ _ _ A HQl HJ) as HJ1.
       destruct (alt_row x S1 HJ1 Bf C) as [R1 R2].
       destruct (IH _ Send R2 D) as [I1 I2]. split; [|exact I2].
-      change (raws_alt (x :: rest) (pes2 Bs r)) with (alt_g x ++ raws_alt rest (pes2 Bs r)).
+      change (raws_alt (x :: rest) (fun B => pes2 Cs Bs r (Some B))) with (alt_g x ++ raws_alt rest (fun B => pes2 Cs Bs r (Some B))).
       eapply segR_pre; [apply (sb_mono _ _ _ _ Hml A)|]. eapply segR_app; eauto.
   Qed.
 
@@ -861,12 +872,12 @@ End AltNode.
 Theorem raw_alt selof Cs Bs id l r :
   Inner selof Cs Bs l -> Inner selof Cs Bs r -> NoDup (ids (Node id SAlt l r)) -> Raw selof Cs Bs id SAlt l r.
 Proof.
-  intros Hl Hr Hnd B k S Hrl Hrr Hpre Hk.
+  intros Hl Hr Hnd b k S Hrl Hrr Hpre Hk.
   assert (Hs : SAlt <> SExc) by discriminate.
-  change (ev2 selof Cs Bs (Node id SAlt l r) (Some B) k S)
-    with (ev2 selof Cs Bs l (Some B) (altKK selof Cs Bs id SAlt l r k) S).
+  change (ev2 selof Cs Bs (Node id SAlt l r) b k S)
+    with (ev2 selof Cs Bs l b (altKK selof Cs Bs id SAlt l r k) S).
   assert (Hpl : Pre l S) by (intros n Hn; apply Hpre; simpl; right; apply in_or_app; auto).
-  destruct (Hl B _ S Hrl Hpl (altKK_good selof Cs Bs id SAlt l r Hnd k Hk)) as [Hseg Hpl'].
+  destruct (Hl b _ S Hrl Hpl (altKK_good selof Cs Bs id SAlt l r Hs Hnd k Hk)) as [Hseg Hpl'].
   assert (HJ : Jy id r (rootsel2 S) S).
   { split; [apply Hpre; simpl; auto|]. split; [apply Hpre; simpl; auto|]. split; [|reflexivity].
     intros n Hn. apply Hpre. simpl. right. apply in_or_app. auto. }
@@ -878,30 +889,30 @@ Qed.
 Theorem raw_next selof Cs Bs id l r :
   Inner selof Cs Bs l -> Inner selof Cs Bs r -> NoDup (ids (Node id SNext l r)) -> Raw selof Cs Bs id SNext l r.
 Proof.
-  intros Hl Hr Hnd B k S Hrl Hrr Hpre Hk.
+  intros Hl Hr Hnd b k S Hrl Hrr Hpre Hk.
   assert (Hs : SNext <> SExc) by discriminate.
   destruct (node_facts _ _ _ _ Hnd) as [Hidl [Hidr [Hlr _]]].
   assert (Hti : inT (Node id SNext l r) id) by (red; simpl; auto).
-  change (ev2 selof Cs Bs (Node id SNext l r) (Some B) k S)
-    with (setb2 REV id false (ev2 selof Cs Bs r (Some B) (nextK2 selof id SNext l r k)
-            (setb2 LEV id false (ev2 selof Cs Bs l (Some B) (altKK selof Cs Bs id SNext l r k) S)))).
+  change (ev2 selof Cs Bs (Node id SNext l r) b k S)
+    with (setb2 REV id false (ev2 selof Cs Bs r b (nextK2 selof id SNext l r k)
+            (setb2 LEV id false (ev2 selof Cs Bs l b (altKK selof Cs Bs id SNext l r k) S)))).
   assert (Hpl : Pre l S) by (intros n Hn; apply Hpre; simpl; right; apply in_or_app; auto).
-  destruct (Hl B _ S Hrl Hpl (altKK_good selof Cs Bs id SNext l r Hnd k Hk)) as [Hseg Hpl'].
+  destruct (Hl b _ S Hrl Hpl (altKK_good selof Cs Bs id SNext l r Hs Hnd k Hk)) as [Hseg Hpl'].
   assert (HJ : Jy id r (rootsel2 S) S).
   { split; [apply Hpre; simpl; auto|]. split; [apply Hpre; simpl; auto|]. split; [|reflexivity].
     intros n Hn. apply Hpre. simpl. right. apply in_or_app. auto. }
   destruct (alt_rows selof Cs Bs id SNext l r Hs Hr Hnd k (rootsel2 S) Hk Hrr _ S _ HJ Hseg) as [HR1 [J1 [J2 [J3 J4]]]].
-  set (Smid := ev2 selof Cs Bs l (Some B) (altKK selof Cs Bs id SNext l r k) S) in *.
+  set (Smid := ev2 selof Cs Bs l b (altKK selof Cs Bs id SNext l r k) S) in *.
   set (S2 := setb2 LEV id false Smid).
   assert (HS2 : same_but (fun n => n = id) Smid S2) by (apply sb_setb2; reflexivity).
   assert (HrS2 : ~ In (rootsel2 S2) (ids r)) by (rewrite (sb_root _ _ _ HS2), J4; exact Hrr).
   assert (HpS2 : Pre r S2).
   { intros n Hn. rewrite !(sb_get _ _ _ _ _ HS2) by (intro; subst; contradiction). apply J3. exact Hn. }
-  destruct (Hr B _ S2 HrS2 HpS2 (nextK2_good selof id SNext l r Hnd k Hk)) as [Hseg2 Hpre3].
+  destruct (Hr b _ S2 HrS2 HpS2 (nextK2_good selof id SNext l r Hs Hnd k Hk)) as [Hseg2 Hpre3].
   assert (HJa : Ja id l (rootsel2 S) Smid S2).
   { unfold S2. split; [apply getb2_setb2_same|]. split; [rewrite get2_setb2_diff by (left; unfold LEV, DYN; lia); exact J1|].
     split; [exact J4|]. intros f n Hn. apply get2_setb2_diff. right. intro; subst; contradiction. }
-  destruct (next_rrows selof id SNext l r Hnd k (rootsel2 S) Hk Smid eq_refl _ S2 _ HJa Hseg2) as [HR2 [A1 [A2 [A3 A4]]]].
+  destruct (next_rrows selof id SNext l r Hs Hnd k (rootsel2 S) Hk Hrr Smid eq_refl _ S2 _ HJa Hseg2) as [HR2 [A1 [A2 [A3 A4]]]].
   split.
   - cbn [raws]. eapply segR_app; [exact HR1|].
     eapply segR_pre; [apply (sb_mono (fun n => n = id)); [intros n ->; exact Hti|exact HS2]|].
